@@ -15,12 +15,20 @@ let parse_key s =
   match String.split_on_char ',' s with
   | [a; b; c] -> ((ni a, ni b), ni c)
   | _ -> failwith ("key " ^ s)
+let parse_links l = if l = "-" || l = "" then [] else List.map parse_key (String.split_on_char '+' l)
+(* blob = hash,len,links[~prehash,prelinks] *)
 let parse_blob s =
-  match String.split_on_char ',' s with
+  let (main, pre) = match String.split_on_char '~' s with
+    | [m] -> (m, None) | [m; p] -> (m, Some p) | _ -> failwith ("blob " ^ s) in
+  match String.split_on_char ',' main with
   | a :: b :: rest ->
-    let l = String.concat "," rest in
-    let links = if l = "-" || l = "" then [] else List.map parse_key (String.split_on_char '+' l) in
-    { b_hash = ni a; b_len = ni b; b_links = links }
+    let links = parse_links (String.concat "," rest) in
+    let (ph, pl) = match pre with
+      | None -> (ni a, links)
+      | Some p -> (match String.split_on_char ',' p with
+          | h :: r -> (ni h, parse_links (String.concat "," r))
+          | _ -> failwith ("blob " ^ s)) in
+    { b_hash = ni a; b_len = ni b; b_links = links; b_pre_hash = ph; b_pre_links = pl }
   | _ -> failwith ("blob " ^ s)
 let parse_ref s =
   if s = "e" then REmpty
@@ -69,7 +77,18 @@ let build_u (ops : op list) =
       | _ -> ()) ops;
   fun g -> (try Hashtbl.find tbl (ii g) with Not_found -> ((N0, g), N0))
 
+let show_fout = function
+  | FO o -> show_out o
+  | FE FDuplicateName -> "err:dupname"
+  | FE FOverwrite -> "err:overwrite"
+let is_file store = String.length store = 6 && String.sub store 0 4 = "file"
+let file_stepper store = file_step true (store.[4] = '1') (store.[5] = '1')
+
 let run_store store ops =
+  if is_file store then begin
+    let (_, outs) = runf (file_stepper store) file_init ops in
+    let l = List.map show_fout outs in (l, l)
+  end else
   match store with
   | "mem" ->
     let (_, outs) = run mem_step mem_init ops in
@@ -161,6 +180,12 @@ let () =
          let (conc, probe) = split_at (List.length all - int_of_string nprobe) all in
          let evs = Array.of_list conc in
          let ok =
+           if is_file store then
+             serialisable (fun s o -> let (s', x) = file_stepper store s o in (s', show_fout x)) file_init
+               (fun s -> String.concat "," (List.map (fun n -> string_of_int (ii n)) (List.sort compare s.f_names)) ^ "#" ^
+                         String.concat "," (List.sort compare (List.map (fun (g, p) -> Printf.sprintf "%d>%d" (ii g) (ii p)) s.f_d2p)) ^ "#" ^
+                         show_content_mem s.f_cas ^ "#" ^ show_tags s.f_res.r_index) evs probe
+           else
            match store with
            | "mem" ->
              serialisable (fun s o -> let (s', x) = mem_step s o in (s', show_out x)) mem_init
